@@ -134,6 +134,9 @@ func c19EnumTotality(c *Ctx, rule string) {
 
 func runC19(c *Ctx) {
 	c19EnumTotality(c, "C19.1")
+	ruleRowFromRecordOnly(c, "C19.10")
+	c.Rule("C19.11", "the stored row reads back as the record's values: the row codec is symmetric per column type (every value the writer emits is consumed by the reader, empty strings included) and its length prefixes are byte lengths (C08.4)")
+	checkCodecPair(c, "C19.11", "storage.(*Tuple).Encode", "storage.(*Tuple).Decode")
 	c.Rule("C19.2", "in the import loop a bad record never stops or alters the others: every error edge before the INSERT (CSV parse error, short record, conversion error) reports and continues; only a non-parse read error or EOF leaves the loop; the short-record guard rejects exactly the records that lack the largest mapped index")
 	c.Rule("C19.3", "exactly one single-row INSERT per accepted record, built from the slice csvToSql allocated for that record (make inside csvToSql, one RowValueConstructor)")
 	c.Rule("C19.4", "the NULL marker is recognised before any type-specific conversion: the `\\N` test dominates every other store into the output row, and stores nil")
@@ -458,19 +461,27 @@ func runC19(c *Ctx) {
 				// column i (the range value), whatever conversion is applied on the way
 				for _, st := range rs.Body.List {
 					as, ok := st.(*ast.AssignStmt)
-					if !ok || rs.Key == nil || rs.Value == nil || !strings.HasSuffix(exprKey(as.Lhs[0]), "["+exprKey(rs.Key)+"]") {
+					if !ok || rs.Key == nil || !strings.HasSuffix(exprKey(as.Lhs[0]), "["+exprKey(rs.Key)+"]") {
 						continue
+					}
+					// the element of this iteration: the range value, or the collection indexed by the range key
+					isElem := func(e ast.Expr) bool {
+						if rs.Value != nil && exprKey(e) == exprKey(rs.Value) {
+							return true
+						}
+						ix, ok := ast.Unparen(e).(*ast.IndexExpr)
+						return ok && exprKey(ix.X) == exprKey(rs.X) && exprKey(ix.Index) == exprKey(rs.Key)
 					}
 					fromLookup := false
 					ast.Inspect(as.Rhs[0], func(y ast.Node) bool {
 						switch z := y.(type) {
 						case *ast.IndexExpr:
-							if exprKey(z.Index) == exprKey(rs.Value) {
+							if isElem(z.Index) {
 								fromLookup = true
 							}
 						case *ast.Ident:
 							if rhs, _, ok := tf.definedBy(rs.Body, tf.ObjOf(z)); ok {
-								if ix, ok := ast.Unparen(rhs).(*ast.IndexExpr); ok && exprKey(ix.Index) == exprKey(rs.Value) {
+								if ix, ok := ast.Unparen(rhs).(*ast.IndexExpr); ok && isElem(ix.Index) {
 									fromLookup = true
 								}
 							}
